@@ -629,7 +629,11 @@ func parseContractLines(pkgPath, path string, lines []string) (*ContractFile, er
 				}
 			case "ghostvar":
 				// ghostvar name T = init
-				f := strings.SplitN(rest, "=", 2)
+				eqi := indexTopEq(rest)
+				if eqi < 0 {
+					return nil, fmt.Errorf("%s: bad ghostvar: %s", path, rest)
+				}
+				f := []string{rest[:eqi], rest[eqi+1:]}
 				hd := strings.Fields(f[0])
 				if len(hd) != 2 || len(f) != 2 {
 					return nil, fmt.Errorf("%s: bad ghostvar: %s", path, rest)
